@@ -149,7 +149,7 @@ Definition vote_sign_bytes (chain : Z) (c : commit) (cs : commitsig) : option si
 
 (* ---- VerifyCommit: the loop over commit.Signatures, vals.Validators[idx] in parallel *)
 Fixpoint vc_loop (chain : Z) (c : commit) (needed : Z)
-         (vs : list validator) (sigs : list commitsig) (idx tallied : Z) : vresult :=
+         (vs : list validator) (sigs : list commitsig) (idx tallied : Z) {struct sigs} : vresult :=
   match sigs with
   | [] => if tallied <=? needed then R_err_power tallied needed else R_ok
   | cs :: sigs' =>
@@ -183,7 +183,7 @@ Definition verify_commit_w (vs : list validator) (chain : Z) (bid : blockid) (h 
 
 (* ---- VerifyCommitLight *)
 Fixpoint vl_loop (chain : Z) (c : commit) (needed : Z)
-         (vs : list validator) (sigs : list commitsig) (idx tallied : Z) : vresult :=
+         (vs : list validator) (sigs : list commitsig) (idx tallied : Z) {struct sigs} : vresult :=
   match sigs with
   | [] => R_err_power tallied needed
   | cs :: sigs' =>
